@@ -1598,6 +1598,8 @@ fn expand_worker(items: Arc<Vec<State>>, idx: Arc<AtomicUsize>, shared: Arc<Shar
                     {
                         *cur_op.borrow_mut() = usize::MAX - 1;
                         let mut fs = vec![];
+                        let _w = crate::watch::item(|| (format!("scenario {} under {:?}: clean / build probes after [{}]", sc.name, clock, ops_short(&st.path)),
+                            json!({"engine": "hist", "scenario": sc.name, "clock": format!("{:?}", clock), "paired": false, "ops": st.path, "what": "does not return"})));
                         probe_c10(&sc, &sc.variants[st.variant], &st.fs, clock, &mut stats, &mut fs);
                         for (ops, mut f) in fs
                         {
@@ -1611,6 +1613,13 @@ fn expand_worker(items: Arc<Vec<State>>, idx: Arc<AtomicUsize>, shared: Arc<Shar
                         for (oi, op) in ops.iter().enumerate().skip(from)
                         {
                             *cur_op.borrow_mut() = oi;
+                            let _w = crate::watch::item(||
+                            {
+                                let mut p = st.path.clone();
+                                p.push(op.clone());
+                                (format!("scenario {} under {:?}: [{}]", sc.name, clock, ops_short(&p)),
+                                 json!({"engine": "hist", "scenario": sc.name, "clock": format!("{:?}", clock), "paired": st.fs_b.is_some(), "ops": p, "what": "does not return"}))
+                            });
                             let ns = apply(&ctx, st, op, &mut stats, &mut findings);
                             if !ordered && std::env::var("RVF_ABSCHECK").is_ok()
                             {
